@@ -155,3 +155,23 @@ Section Sorted.
       + apply (Permutation_cons_inv P).
   Qed.
 End Sorted.
+
+Lemma digits_lt (n d : nat) : forall k i, k < n ^ d -> In i (digits n d k) -> i < n.
+Proof.
+  unfold digits. induction d as [|d IH]; intros k i Hk Hin; simpl in *; [contradiction|].
+  rewrite prod_repeat in *.
+  assert (P : 0 < n ^ d) by (destruct (n ^ d); [lia|lia]).
+  destruct Hin as [<-|Hin].
+  - apply Nat.div_lt_upper_bound; lia.
+  - apply (IH (k mod n ^ d)); [apply Nat.mod_upper_bound; lia | exact Hin].
+Qed.
+
+(* pointwise equality of map2 on (column, digit) pairs whose digit is below the column's radix *)
+Lemma map2_ext_bound {A C} (f g : A -> nat -> C) (rad : A -> nat) (l : list A) : forall (m : list nat),
+  Forall2 (fun i n => i < n) m (map rad l) ->
+  (forall a i, In a l -> i < rad a -> f a i = g a i) -> map2 f l m = map2 g l m.
+Proof.
+  induction l as [|a l IH]; intros m F H; simpl in *; [destruct m; reflexivity|].
+  inversion F as [|i n m' ns' Hi F' E1 E2]; subst. simpl.
+  rewrite H by (auto). rewrite (IH m' F'); [reflexivity|]. intros; apply H; auto.
+Qed.
